@@ -148,6 +148,8 @@ class World(object):
         self.nodes = []; self.docs = []
         self.defaults = {}      # doc id -> {element name: [(attr name, value)]}  (from the DTD the driver wrote itself)
         self.captured = {}      # element -> DTD defaults known to it (creation time)
+        self.idattrs = []       # attributes that are, or once were, ID attributes (DTD type ID or setIdAttribute*)
+        self.hidden_ids = {}    # doc id -> set of ID values carried by the harness's hidden filler elements (op idbulk)
         self.gray = None
         self.views = []         # C14
         self.listeners = []     # C14 view objects that receive mutation notifications (ranges, iterators)
@@ -447,6 +449,7 @@ class World(object):
         return len(self._find_attr(e, name)) > 1
     def _set_value(self, a, value):
         a.value = value if value is not None else ''; a.specified = True
+        if a.isid == 'gray': a.isid = True      # (Xerces re-registers an attribute carrying the ID flag whenever its value is set)
     def _remove_attr(self, e, a, restore_default=True):
         e.attrs.remove(a); a.owner = None
         self.gray = None
@@ -530,7 +533,7 @@ class World(object):
         if a.owner is not e: codes.add(NOT_FOUND)
         if codes: return Res.err(codes)
         clash = (self._name_clash(e, a.name) if a.local is None else len(self._find_attr_ns(e, a.ns, a.local)) > 1)
-        self._remove_attr(e, a)
+        self._remove_attr(e, a); a.isid = False
         return Res.ok(a, self.gray or ('removeAttributeNode on an element with two attributes of that name (DOM Level 1 / namespace-aware mix)' if clash else None))
     def getAttribute(self, e, name):
         f = self._find_attr(e, name)
@@ -548,6 +551,51 @@ class World(object):
         return Res.ok(('i', 1 if self._find_attr(e, name) else 0))
     def hasAttributeNS(self, e, ns, local):
         return Res.ok(('i', 1 if self._find_attr_ns(e, ns, local) else 0), 'L1 clash' if self._l1_clash(e, ns, local) else None)
+
+    # =================================================================================================
+    # ID attributes / getElementById (DOM3 Element.setIdAttribute*, Document.getElementById)
+    # =================================================================================================
+    def _mark_id(self, a, isid):
+        if isid:
+            if a.isid != 'gray':
+                if not a.isid: self.idattrs.append(a)
+                a.isid = True
+        else: a.isid = False
+    def setIdAttribute(self, e, name, isid):
+        codes = set()
+        if e.readonly: codes.add(NO_MOD)
+        found = self._find_attr(e, name)
+        if not found: codes.add(NOT_FOUND)
+        if codes: return Res.err(codes)
+        self._mark_id(found[0], isid)
+        return Res.ok(None, 'two attributes share the nodeName' if len(found) > 1 else None)
+    def setIdAttributeNS(self, e, ns, local, isid):
+        codes = set()
+        if e.readonly: codes.add(NO_MOD)
+        found = self._find_attr_ns(e, ns, local)
+        unspec = 'namespace-aware lookup on an element carrying a DOM Level 1 attribute of that name' if self._l1_clash(e, ns, local) else None
+        if not found and not unspec: codes.add(NOT_FOUND)
+        if codes: return Res.err(codes)
+        if not found: return Res.err({NOT_FOUND}, unspec)
+        self._mark_id(found[0], isid)
+        return Res.ok(None, unspec)
+    def setIdAttributeNode(self, e, a, isid):
+        codes = set()
+        if e.readonly: codes.add(NO_MOD)
+        if a.owner is not e: codes.add(NOT_FOUND)
+        if codes: return Res.err(codes)
+        self._mark_id(a, isid)
+        return Res.ok()
+    def id_expect(self, doc, v):
+        """what getElementById(v) on doc must return: '-' (null), a node id, or None = not determined by the specification
+        (several elements with that ID, a clone of an ID attribute, an element/attribute outside the document tree)"""
+        if v in self.hidden_ids.get(doc.id, ()): return None
+        seen = set(); c = []
+        for a in self.idattrs:
+            if a.isid and not a.dead and a.doc is doc and a.value == v and id(a) not in seen: seen.add(id(a)); c.append(a)
+        if not c: return '-'
+        if len(c) > 1 or c[0].isid == 'gray' or c[0].owner is None or root_of(c[0].owner) is not doc: return None
+        return str(c[0].owner.id)
 
     # =================================================================================================
     # character data
@@ -683,6 +731,10 @@ class World(object):
                 if importing and not a.specified: continue
                 ca = self._clone(a, True, doc, readonly=c.readonly, importing=importing); ca.owner = c
                 ca.specified = a.specified if not importing else True
+                if a.isid:
+                    # importNode registers the ID attributes of an imported element in the target document; what a *clone* of
+                    # an ID attribute is, is not said by DOM3 (Xerces: isId() true, not findable) -> 'gray' = never compared
+                    ca.isid = True if importing else 'gray'; self.idattrs.append(ca)
                 c.attrs.append(ca)
             if importing: self.add_defaults(c)
         if n.t == AT: c.specified = True
